@@ -50,6 +50,10 @@ func c05Classify(rule string) string {
 	return "regex-other"
 }
 
+// c05Bystanders: rules with literal shortcuts that are frequent in the witness strings.
+var c05Bystanders = strings.Join([]string{"://example", "example.org/", "h.example/", "xample.com", ".example/", "//example.", "://x.com/", "example.org/q", "tp://h", "qqqqqq",
+	"://www.", "http://a", "ttp://ex", "s://exam", ".org/ads", ".com/ban", "://sub.", "http://1", "http://g", "://goog", "p://x."}, "\n") + "\n"
+
 func checkC05(c c05Case, rec *Rec) *Violation {
 	const id = "C05"
 	rule, err := rules.NewNetworkRule(c.Rule, 1)
@@ -103,7 +107,8 @@ func checkC05(c c05Case, rec *Rec) *Violation {
 		src := "http://example.org/"
 		if !c.OtherModifiers && engine == nil && asNetworkLine(c.Rule) {
 			// the same pre-check exists in the shortcut index of the engine
-			st, cleanup, err := buildStorage([]ListSpec{{ID: 1, Text: c.Rule + "\n||filler.example^\n"}})
+			// other rules share the index: literal rules whose shortcuts occur in many witnesses, ahead of the rule's own
+			st, cleanup, err := buildStorage([]ListSpec{{ID: 1, Text: c.Rule + "\n||filler.example^\n" + c05Bystanders}})
 			if err != nil {
 				return viol(id, "C05:harness", "storage: %v", err)
 			}
